@@ -126,6 +126,10 @@ def assert_frame_cases() -> None:
 assert_frame_cases()
 
 
+class _ConcurrentModification(Exception):
+    pass
+
+
 def inspect_frame(frame: FrameType) -> FrameDetails:
     assert sys.implementation.name == "cpython" and sys.version_info >= (3, 11)
 
@@ -268,9 +272,30 @@ def inspect_frame(frame: FrameType) -> FrameDetails:
 
                     details.stack.append(obj)
 
+                # If the frame is executing a loop on another thread, it can
+                # come back to the same instruction (so lasti matches) with
+                # different objects on its stack, and the reads above might
+                # have seen some slots before that happened and some after.
+                # Read everything a second time: if each slot still holds
+                # what we found the first time, then all of them did at the
+                # moment the first pass ended, so the snapshot is coherent.
+                for i, obj in enumerate(details.stack):
+                    assert (
+                        frame.f_lasti == lasti_before
+                        and frame_raw_ptr.f_frame == iframe_addr
+                    )
+                    try:
+                        again = stack_ptr[i]
+                    except ValueError:
+                        again = None
+                    if again is not obj:
+                        raise _ConcurrentModification
+
             assert frame.f_lasti == lasti_before
             assert frame_raw_ptr.f_frame == iframe_addr
 
+        except _ConcurrentModification:
+            continue
         except AssertionError:
             if frame.f_lasti == lasti_before and frame_raw_ptr.f_frame == iframe_addr:
                 raise
